@@ -30,7 +30,7 @@ for d in sorted(glob.glob('/verif/seeded/*/meta.json')):
     rows.append('| %s | %s | %s | %s |' % (m['id'], m['property'], m['needs_to_manifest'], ', '.join(m.get('detected_by',[])) or '-'))
 kf=json.load(open('/verif/known_findings.json'))
 fixed='\n'.join('* `%s`' % f for f in kf['fixed'])
-openkf='\n'.join('* **%s** (%s): %s' % (f['id'], f.get('property') or ', '.join(f.get('properties',[])), f['what']) for f in kf['open'])
+openkf=('\n'.join('* **%s** (%s): %s' % (f['id'], f.get('property') or ', '.join(f.get('properties',[])), f['what']) for f in kf['open']) or 'None at present: every defect found so far has been repaired (`known_findings.json` has an empty `open` list; the mechanism stays in place).')
 body=open('/verif/doc/design_tail.md.tmpl').read()
 body=body.replace('@@FIXED@@',fixed).replace('@@OPEN@@',openkf).replace('@@MATRIX@@','\n'.join(rows))
 s=s+body
